@@ -96,6 +96,22 @@ func (o *Out) emit(fam string, nontrivial bool, kind string, body ...SX) {
 	o.w.WriteByte('\n')
 }
 
+// emitDirect records a verdict decided on the Go side (runtime observations the model cannot make).
+func (o *Out) emitDirect(kind string, holds bool, info string) {
+	o.n++
+	id := fmt.Sprintf("direct%d", o.n)
+	h := fnv.New64a()
+	h.Write([]byte(kind + info))
+	o.distinct[h.Sum64()] = struct{}{}
+	o.nontriv[h.Sum64()] = struct{}{}
+	o.dist[kind]++
+	hv := 0
+	if holds {
+		hv = 1
+	}
+	fmt.Fprintf(o.w, "(direct %s (agree 1) (holds %d) (info %s %s))\n", id, hv, kind, str(B(info)))
+}
+
 func (o *Out) close(metaPath string) {
 	o.w.Flush()
 	f, err := os.Create(metaPath)
